@@ -239,6 +239,78 @@ var LegacyProtocols = []struct {
 	Ver  byte
 }{{"MQIsdp", 3}, {"MQTT", 4}, {"MQIsdp", 4}, {"MQTT", 3}, {"MQTT", 0x84}, {"MQIsdp", 0x83}, {"MQTT", 6}}
 
+// ReasonName, when set, gives the name the library under test prints for a
+// reason code (set by the scenarios; gen itself does not know the library).
+var ReasonName func(code byte) string
+
+// nameTheReason makes the reason string of a packet that reports a failure say
+// exactly what the reason code says (in the library's own words): two fields
+// that agree are the case code that "avoids redundancy" is written for.
+func nameTheReason(t *sim.Tape, a *ref.AP) {
+	if ReasonName == nil || a.Reason < 0x80 {
+		return
+	}
+	for i := range a.Props {
+		if a.Props[i].ID == 0x1F && t.Bool(1, 4) {
+			if n := ReasonName(a.Reason); n != "" {
+				a.Props[i].B = []byte(n)
+			}
+		}
+	}
+}
+
+// tuneShift pads the END of a packet so that its body length equals what a
+// decoder would compute if it read a two-byte length at the WRONG offset near
+// the start of the body (o+2+be16(body[o:])): the coincidence a "fast path" or a
+// layout heuristic needs in order to misfire on a valid frame. Only packet types
+// that can grow at their end without changing their first bytes are tuned.
+func tuneShift(t *sim.Tape, a *ref.AP) {
+	switch a.Type {
+	case ref.Publish, ref.Subscribe, ref.Unsubscribe, ref.Connect:
+	default:
+		return
+	}
+	f, _ := ref.Encode(a)
+	_, body, _, err := ref.SplitFrame(f)
+	if err != nil || len(body) < 4 {
+		return
+	}
+	o := t.Int(7)
+	if o+2 > len(body) {
+		return
+	}
+	target := o + 2 + int(body[o])<<8 + int(body[o+1])
+	pad := target - len(body)
+	if pad < 4 || pad > 65000 {
+		return
+	}
+	fill := func(n int) []byte {
+		b := make([]byte, n)
+		for i := range b {
+			b[i] = 'a' + byte(i%26)
+		}
+		return b
+	}
+	switch a.Type {
+	case ref.Publish:
+		a.Payload = append(append([]byte{}, a.Payload...), fill(pad)...)
+	case ref.Unsubscribe:
+		a.Filters = append(a.Filters, ref.Filter{Name: fill(pad - 2)})
+	case ref.Subscribe:
+		a.Filters = append(a.Filters, ref.Filter{Name: fill(pad - 3), Opts: 1})
+	case ref.Connect:
+		if a.ConnFlags&ref.CFPassword != 0 {
+			a.Password = append(append([]byte{}, a.Password...), fill(pad)...)
+			if len(a.Password) > 65535 {
+				a.Password = a.Password[:65535]
+			}
+		} else {
+			a.ConnFlags |= ref.CFPassword
+			a.Password = fill(pad - 2)
+		}
+	}
+}
+
 // Packet draws one abstract packet.
 func Packet(t *sim.Tape, cfg Cfg) *ref.AP {
 	g := &G{T: t, Thorough: cfg.Thorough, big: 1}
@@ -259,6 +331,10 @@ func Packet(t *sim.Tape, cfg Cfg) *ref.AP {
 		typ = order[t.Pick(ws...)]
 	}
 	a := g.ofType(typ, &cfg)
+	nameTheReason(t, a)
+	if t.Bool(1, 12) {
+		tuneShift(t, a)
+	}
 	if t.Bool(1, 10) {
 		// land the remaining length or the property length exactly on a width boundary
 		a = Tune(t, a, !cfg.NoHuge && cfg.Thorough)
@@ -297,6 +373,9 @@ func (g *G) ofType(typ byte, cfg *Cfg) *ref.AP {
 		if t.Bool(1, 2) {
 			w := &ref.Will{QoS: byte(t.Int(3)), Retain: t.Bool(1, 2)}
 			w.Topic = g.Str(g.Len1())
+			if !wf && t.Bool(1, 10) {
+				w.Topic = []byte{} // constructible, not well formed
+			}
 			w.Payload = g.Bin(g.Len())
 			w.Props = g.props(ref.WillScope, cfg)
 			a.Will = w
@@ -653,6 +732,36 @@ func BulkDup(t *sim.Tape, thorough bool) *ref.AP {
 		a.Props = append(a.Props, p)
 	}
 	return a
+}
+
+// BulkMedium draws a valid packet with hundreds of strings of 1..2 KiB each
+// (user-property values or filters): where a per-string cost that depends on
+// the size of the REST of the frame shows.
+func BulkMedium(t *sim.Tape) *ref.AP {
+	g := &G{T: t}
+	n := 400 + t.Int(800)
+	val := func() []byte { return g.str0(1024 + t.Int(1024)) }
+	switch t.Int(3) {
+	case 0:
+		a := &ref.AP{Type: ref.Publish, Topic: []byte("t"), Payload: []byte("p")}
+		for i := 0; i < n; i++ {
+			a.Props = append(a.Props, ref.Prop{ID: 0x26, K: []byte("k"), V: val()})
+		}
+		return a
+	case 1:
+		a := &ref.AP{Type: ref.Subscribe, Flags: 2, PacketID: 9}
+		for i := 0; i < n; i++ {
+			a.Filters = append(a.Filters, ref.Filter{Name: val(), Opts: 1})
+		}
+		return a
+	default:
+		typ := []byte{ref.ConnAck, ref.PubAck, ref.Disconnect}[t.Int(3)]
+		a := &ref.AP{Type: typ, Flags: ref.ReservedFlags(typ), PacketID: 7, Form: 2}
+		for i := 0; i < n; i++ {
+			a.Props = append(a.Props, ref.Prop{ID: 0x26, K: val(), V: []byte("v")})
+		}
+		return a
+	}
 }
 
 // Tune pads a packet so that its remaining length or its property length
